@@ -19,6 +19,7 @@ CONSTANTS
   BootAll = FALSE
   MaxRank = 2
   AllRanks = TRUE
+  AllowMulti = FALSE
   AllowBadMerge = FALSE
   AllowBad = TRUE
   PubWeight = 1
